@@ -10,10 +10,11 @@ vars == <<in, out, pc>>
 Trees == {"current", "legacy", "billing", "hourly"}
 Init ==
   /\ \/ \E t \in Trees : in = [kind |-> "default", tree |-> t]
-     \/ \E k \in 1..Len(Fields), c \in {"def", "alt", "bad"}, dm \in BOOLEAN, sp \in {"plain", "upper", "padded"}, fm \in {"dict", "object"} :
+     \/ \E k \in 1..Len(Fields), c \in {"def", "alt", "bad"}, dm \in BOOLEAN, sl \in BOOLEAN, sp \in {"plain", "upper", "padded"}, fm \in {"dict", "object"} :
           /\ (c = "alt" => Fields[k].alt # "")
-          /\ (Fields[k].tree = "hourly" => ~dm)
-          /\ in = [kind |-> "construct", tree |-> Fields[k].tree, fi |-> k, choice |-> c, devmode |-> dm, spelling |-> sp, form |-> fm]
+          /\ (Fields[k].tree = "hourly" => ~dm /\ ~sl)
+          /\ (sl /\ ~dm => c = "alt" /\ sp = "plain")        \* the silent flag alone is tried against every field's alternative
+          /\ in = [kind |-> "construct", tree |-> Fields[k].tree, fi |-> k, choice |-> c, devmode |-> dm, silent |-> sl, spelling |-> sp, form |-> fm]
      \/ \E ci \in 1..Len(CrossCases) : in = [kind |-> "cross", tree |-> CrossCases[ci].tree, ci |-> ci]
      \/ \E k \in 1..Len(Fields) : /\ Fields[k].alt # "" /\ Fields[k].tree # "current"
                                   /\ Fields[k].path \in {"season.march", "weekday_weekend.friday", "uncertainty_alpha", "cvrmse_threshold", "scaling_method", "min_daily_training_hours"}
